@@ -10,6 +10,7 @@ import Cosi.Driver.Helpers
 import Cosi.Driver.KeyStorage
 import Cosi.Driver.Queue
 import Cosi.Driver.DepDB
+import Cosi.Driver.Selector
 
 open Cosi
 
@@ -26,7 +27,8 @@ def engines : List (String × Engine) := [
   ("queue", ⟨Driver.Queue.St, Driver.Queue.init, Driver.Queue.stepQueue⟩),
   ("qreconcile", ⟨Driver.Queue.St, Driver.Queue.init, Driver.Queue.stepReconcileAny⟩),
   ("depdb", ⟨Driver.DepDB.St, Driver.DepDB.init, Driver.DepDB.stepLine⟩),
-  ("registry", ⟨Driver.DepDB.RSt, Driver.DepDB.rinit, Driver.DepDB.rstepLine⟩)
+  ("registry", ⟨Driver.DepDB.RSt, Driver.DepDB.rinit, Driver.DepDB.rstepLine⟩),
+  ("selector", ⟨Driver.Selector.St, Driver.Selector.init, Driver.Selector.stepLine⟩)
 ]
 
 partial def loop (e : Engine) (spec : Bool) (inp : IO.FS.Stream) (out : IO.FS.Stream) (st : e.σ) : IO Unit := do
